@@ -83,6 +83,8 @@ def main(argv):
     proof_ok = not proof_problems
 
     # ---- 2. correspondence + oracle on the implementation --------------------------------------
+    # the case budget starts now: a cold or slow Lean build must not eat the exploration time
+    ctx.deadline = time.time() + budget
     harness_fault = None
     if os.path.exists(common.DRIVER_BIN):
         try:
